@@ -513,6 +513,26 @@ func C10(r *chk.Run) {
 		if r.Replay != nil {
 			continue
 		}
+		if rg := os.Getenv("VERIF_C10_RANGE"); rg != "" && !iso.IsWorker() {
+			var name string
+			var from, to int
+			parts := strings.Split(rg, ":")
+			if len(parts) == 3 && parts[0] == f.name {
+				name = parts[0]
+				fmt.Sscan(parts[1], &from)
+				fmt.Sscan(parts[2], &to)
+				iso.FenceHeap()
+				for i := from; i <= to; i++ {
+					t0 := time.Now()
+					o := fn(i)
+					if d := time.Since(t0); d > 20*time.Millisecond || i == to {
+						fmt.Printf("%s call %d: %v %+v\n", name, i, d, o)
+					}
+				}
+				os.Exit(0)
+			}
+			continue
+		}
 		total := f.n * c10Entries
 		batch := total/(r.Workers*6) + 1
 		nw := r.Workers
